@@ -423,7 +423,12 @@ func (i *interpreter) checkObligation(kind, msg string, c value, pos string) {
 	for _, rc := range conds {
 		extra = append(extra, "(not "+rc+")")
 	}
-	r := i.solve(extra, p.inputTerms())
+	// stage 1 without the lazily kept heavy/class constraints: "unsat" there is
+	// conclusive (fewer constraints), and far cheaper; stage 2 with everything
+	r := i.solveMode(false, extra, nil)
+	if r.res != "unsat" {
+		r = i.solve(extra, p.inputTerms())
+	}
 	switch r.res {
 	case "unsat":
 		ob.Status = "holds"
@@ -459,6 +464,23 @@ func (i *interpreter) decodeModel(m map[string]string) map[string]ModelVal {
 			out[name] = ModelVal{"bool", txt}
 		case SStr:
 			s, _ := decodeSMTString(txt)
+			if a, ok := p.alpha["|"+name+"|"]; ok {
+				// alphabet constraints of long strings are not asserted: project the model
+				var first byte
+				for b := 0; b < 256; b++ {
+					if a[b] {
+						first = byte(b)
+						break
+					}
+				}
+				bs := []byte(s)
+				for k := range bs {
+					if !a[bs[k]] {
+						bs[k] = first
+					}
+				}
+				s = string(bs)
+			}
 			if p.facts["class|asciiws||"+name+"|"] {
 				// model projection for class strings whose constraint was not asserted
 				b := []byte(s)
